@@ -549,6 +549,22 @@ def check(run, replay_path=None):
             run.violation(descr, f'{clause} fails at {rec["act"]} (record {li}, {variant})',
                           {'behaviour': behs[ti], 'trace': traces[ti], 'failing_record': li, 'variant': variant})
             break
+    # ---- the consumer side of WS-Eventing (specs/EventingClient.tla).  It is outside the statement of C08: a rejected
+    # step is described in the evidence (other_specifications), never reported as a violation of C08.
+    from verif.checks import eventingclient
+    crej, ctraces = eventingclient.family(run)
+    described = []
+    for (ti, li, clause) in tracecheck.first_rejects(crej)[:10]:
+        rec = ctraces[ti][li]
+        described.append({'clause': clause, 'step': {k: v for k, v in rec.items() if k != 'post'},
+                          'before': ctraces[ti][li - 1]['post'], 'after': rec['post']})
+    run.note('other_specifications', {'EventingClient.tla': {
+        'what': 'consumer subscription client (belief, renew loop, unsubscribe_all, SubscriptionEnd) against the real provider',
+        'traces': len(ctraces), 'steps': sum(len(t) - 1 for t in ctraces), 'rejected_steps': len(tracecheck.first_rejects(crej)),
+        'rejections': described}})
+    if crej:
+        print(f'NOTE: EventingClient.tla (not a listed property): {len(tracecheck.first_rejects(crej))} recorded step(s) '
+              f'differ from the specification, first: {described[0]["clause"]} at {described[0]["step"].get("act")}')
     run.assumptions += ['tick = 1 s of the virtual clock; provider maximum 2 s; failure limit read from the code',
                         'a request for a subscription that is no longer live but possibly not yet removed may fault or succeed',
                         'loop-back transport; delivery failures are raised by the transport as scripted']
